@@ -27,7 +27,25 @@ import (
 // present) so that no backend contract violation of the stub itself is observed.
 type sfSession struct {
 	recSessionFull
-	env *sfEnv
+	env  *sfEnv
+	idle *atomic.Int32 // Session.Idle calls of this connection that have not returned
+}
+
+// Append: with env.failAppend the backend refuses the message before reading any of it (the way
+// a real backend answers NO [TRYCREATE] for a mailbox that does not exist).
+func (s sfSession) Append(mailbox string, r imap.LiteralReader, options *imap.AppendOptions) (*imap.AppendData, error) {
+	if s.env.failAppend {
+		s.rec("Append", hx([]byte(mailbox))+" [] 0 -")
+		return nil, &imap.Error{Type: imap.StatusResponseTypeNo, Code: imap.ResponseCodeTryCreate, Text: "No such mailbox"}
+	}
+	return s.recSessionFull.Append(mailbox, r, options)
+}
+
+// Idle counts the calls that have not returned yet: after the connection is gone there must be none.
+func (s sfSession) Idle(w *imapserver.UpdateWriter, stop <-chan struct{}) error {
+	s.idle.Add(1)
+	defer s.idle.Add(-1)
+	return s.recSessionFull.Idle(w, stop)
 }
 
 func (s sfSession) Status(mailbox string, options *imap.StatusOptions) (*imap.StatusData, error) {
@@ -40,12 +58,14 @@ func (s sfSession) Status(mailbox string, options *imap.StatusOptions) (*imap.St
 }
 
 type sfEnv struct {
-	srv  *imapserver.Server
-	ln   *memListener
-	mu   sync.Mutex
-	sess []*recSession
-	logs []string
-	newS chan *recSession
+	srv        *imapserver.Server
+	ln         *memListener
+	mu         sync.Mutex
+	sess       []*recSession
+	logs       []string
+	newS       chan *recSession
+	failAppend bool
+	idleBy     map[*recSession]*atomic.Int32
 }
 
 type sfLog struct{ env *sfEnv }
@@ -68,17 +88,24 @@ func sfCaps(lit string) imap.CapSet {
 	return imap.CapSet{imap.CapIMAP4rev1: {}}
 }
 
+// lit may carry the suffix "/af": the backend's Append fails without reading the message.
 func newSfEnv(lit string, preauth bool) *sfEnv {
-	env := &sfEnv{ln: newMemListener(), newS: make(chan *recSession, 64)}
+	env := &sfEnv{ln: newMemListener(), newS: make(chan *recSession, 64), idleBy: map[*recSession]*atomic.Int32{}}
+	if strings.HasSuffix(lit, "/af") {
+		env.failAppend = true
+		lit = strings.TrimSuffix(lit, "/af")
+	}
 	env.srv = imapserver.New(&imapserver.Options{
 		NewSession: func(c *imapserver.Conn) (imapserver.Session, *imapserver.GreetingData, error) {
 			s := newRecSession()
 			s.conn = c
+			idle := new(atomic.Int32)
 			env.mu.Lock()
 			env.sess = append(env.sess, s)
+			env.idleBy[s] = idle
 			env.mu.Unlock()
 			env.newS <- s
-			return sfSession{recSessionFull{s}, env}, &imapserver.GreetingData{PreAuth: preauth}, nil
+			return sfSession{recSessionFull{s}, env, idle}, &imapserver.GreetingData{PreAuth: preauth}, nil
 		},
 		Caps:         sfCaps(lit),
 		InsecureAuth: true,
@@ -113,7 +140,7 @@ type sfConn struct {
 	spent  bool
 }
 
-const sfWait = 20 * time.Second
+const sfWait = 30 * time.Second
 
 // sfTimeouts counts watchdog expiries; each is already a reportable observation, so after a few
 // of them the remaining cases stop waiting the full time (a broken server would otherwise turn a
@@ -122,7 +149,7 @@ var sfTimeouts atomic.Int32
 
 func sfPatience() time.Duration {
 	if sfTimeouts.Load() >= 3 {
-		return 300 * time.Millisecond
+		return 3 * time.Second
 	}
 	return sfWait
 }
@@ -198,6 +225,32 @@ func (env *sfEnv) awaitDrained() bool {
 		if time.Now().After(deadline) {
 			sfTimeouts.Add(1)
 			return false
+		}
+		if d > 20*time.Millisecond {
+			d = 20 * time.Millisecond
+		}
+		time.Sleep(d)
+	}
+}
+
+// awaitIdleReturned polls until no Session.Idle call of this server is running any more.
+func (env *sfEnv) awaitIdleReturned(sess *recSession) int {
+	env.mu.Lock()
+	ctr := env.idleBy[sess]
+	delete(env.idleBy, sess)
+	env.mu.Unlock()
+	if ctr == nil {
+		return 0
+	}
+	deadline := time.Now().Add(sfPatience())
+	for d := 50 * time.Microsecond; ; d *= 2 {
+		n := int(ctr.Load())
+		if n == 0 {
+			return 0
+		}
+		if time.Now().After(deadline) {
+			sfTimeouts.Add(1)
+			return n
 		}
 		if d > 20*time.Millisecond {
 			d = 20 * time.Millisecond
@@ -428,14 +481,16 @@ type sfObs struct {
 	panics    int
 	maxArg    int
 	drained   bool // the server let go of the connection after the client closed
+	idleLeft  int  // Session.Idle calls still running after that (polled to the deadline)
 }
 
 func (sc *sfConn) observe() sfObs {
 	end := sc.finish()
 	drained := sc.env.awaitDrained()
+	idleLeft := sc.env.awaitIdleReturned(sc.sess)
 	calls, closes, maxArg := sfCalls(sc.sess)
 	o := sfObs{delivered: sc.all, trace: "-", end: end, calls: calls, closes: closes, maxArg: maxArg, drained: drained,
-		panics: sfPanicLogs(sc.env.takeLogs())}
+		idleLeft: idleLeft, panics: sfPanicLogs(sc.env.takeLogs())}
 	if len(sc.trace) > 0 {
 		o.trace = strings.Join(sc.trace, ";")
 	}
